@@ -282,6 +282,14 @@ def one(ctx, root, abs_files, rel_files, generated, spec):
                                           files=rel_files)
                     ctx.nontrivial((u["kind"], min(ndefs.get(u["name"], 0), 4), tuple(sorted(k for k, v in vals.items() if v is not None)), self_named))
 
+        pm_ = os.path.join(root, "wsplug", "plugin_mod.py")
+        if generated and pm_ in abs_files:
+            # the workspace plugin's module is opened in the editor (same text): its records are registered again, after those
+            # of the installed plugins
+            before = srv.seq
+            srv.did_open(pm_, abs_files[pm_])
+            srv.wait_diagnostics(pm_, before, timeout=20)
+            ctx.nontrivial(("workspace_plugin_module_opened",))
         sweep()
         if generated and ctx.rng.random() < 0.5:
             # every conftest is opened and closed again (its text leaves the server's text cache, nothing else changes):
